@@ -396,6 +396,86 @@ func runC15(c *fw.Ctx) {
 			}
 		})
 	})
+	// a goroutine that has nothing to do with the call is started while the call runs and outlives it: the call returns
+	// all the same once its callbacks have returned. "It does not return" is decided by steps, not by the clock alone: after
+	// the last callback has returned the harness yields the processor two million times AND at least ten seconds pass
+	// before it gives up waiting; then it lets the stranger go and the call may finish.
+	c.Cases("async-with-an-outliving-goroutine", c.N(6, 120), false, func(i int, r *rng.R) {
+		n := []int{1, 3, 8}[i%3]
+		onList := (i/3)%2 == 0
+		useMap := r.Bool()
+		in := func() string {
+			return fmt.Sprintf("%s (list=%v) over %d elements; the first callback starts a goroutine of the application that stays alive after the call", map[bool]string{false: "ForEachAsync", true: "MapAsync"}[useMap], onList, n)
+		}
+		guard(c, in, func() {
+			setHookTable(nil)
+			runtime.GOMAXPROCS([]int{1, 4}[r.Intn(2)])
+			stop := make(chan struct{})
+			strangerDone := make(chan struct{})
+			var calls, finished int64
+			body := func() {
+				if atomic.AddInt64(&calls, 1) == 1 {
+					go func() { defer close(strangerDone); <-stop }()
+				}
+				atomic.AddInt64(&finished, 1)
+			}
+			returned := make(chan struct{})
+			go func() {
+				defer close(returned)
+				drive.Protect(func() {
+					if onList {
+						vals := make([]any, n)
+						for j := range vals {
+							vals[j] = j
+						}
+						l := at.NewList(vals...)
+						if useMap {
+							l.MapAsync(func(int, any) any { body(); return 1 })
+						} else {
+							l.ForEachAsync(func(int, any) { body() })
+						}
+					} else {
+						o := at.NewObject()
+						for j := 0; j < n; j++ {
+							o.Set(fmt.Sprintf("k%d", j), j)
+						}
+						if useMap {
+							o.MapAsync(func(string, any) any { body(); return 1 })
+						} else {
+							o.ForEachAsync(func(string, any) { body() })
+						}
+					}
+				})
+			}()
+			stuck := false
+			started := time.Now()
+			yields := 0
+		wait:
+			for {
+				select {
+				case <-returned:
+					break wait
+				default:
+				}
+				runtime.Gosched()
+				if atomic.LoadInt64(&finished) == int64(n) {
+					yields++
+				}
+				if yields >= 2000000 && time.Since(started) >= 10*time.Second {
+					stuck = true
+					break wait
+				}
+			}
+			close(stop)
+			<-strangerDone
+			<-returned
+			c.Count("calls_with_an_outliving_goroutine")
+			c.DistinctHash(spec.Hash(in() + fmt.Sprint(i)))
+			if stuck {
+				c.Violate("async-call-does-not-return", in(), "the call returns once all its callbacks have returned", "all callbacks had returned, the harness yielded 2 000 000 times over more than 10 s, and the call was still running; it returned when the unrelated goroutine ended")
+			}
+		})
+	})
 	// (2) MapAsync == Map for pure functions (incl. functions that map nested containers asynchronously themselves)
 	c.Cases("map-async", c.N(200, 40000), false, func(i int, r *rng.R) {
 		ac := genAsyncCase(c, r)
